@@ -42,6 +42,7 @@ func propC12(w *World, r *Report) {
 	RunBBoxCorners(w, r)
 	RunExtremumInit(w, r, losslessFuncs(w, r, "C12"))
 	r.Floor("extremuminit", 3)
+	RunBBoxRound(w, r, w.LibFuncs())
 	RunExtremumLocal(w, r, w.LibFuncs())
 	r.Floor("extremumlocal", 6)
 	RunControl(r, "extremumlocal", "ctlExtremumLocalBad", RunExtremumLocal)
